@@ -1,5 +1,8 @@
 import CkbVerif.Model.SchedBook
 import CkbVerif.Lemmas.SchedBook
+import CkbVerif.Lemmas.SchedBookW
+import CkbVerif.Lemmas.SchedBookP
+import CkbVerif.Lemmas.SchedBookInv
 import CkbVerif.Model.CyclesAttr
 import CkbVerif.Model.SchedTx
 import CkbVerif.Props.C05
@@ -33,6 +36,14 @@ C05 — the scheduler layer: theorems about the bookkeeping model of `script/src
   uninterrupted run.
 * `ensure_get_instantiated_within_cap`: after `ensure_get_instantiated(id)` the VM is instantiated and the
   cap of `MAX_INSTANTIATED_VMS` machines is kept.
+* `process_io_leaves_no_writer_on_closed_end`, `process_io_leaves_no_matching_pair`,
+  `process_io_leaves_no_servable_io`: the full post-condition of `process_io` under the fd-ownership
+  invariant `IoInv`; `io_inv_initial`, `io_inv_message`, `io_inv_process_io`, `io_inv_iterate_outer`,
+  `io_inv_run`, `io_inv_suspend_resume`, `io_inv_chunked`: the invariant holds initially and is kept by
+  every step of the model, hence in every state of every chunked run.
+* `tx_model_eq_accounting_model_on_type_id_groups`, `accounting_chunk_within_limit`,
+  `tx_model_differs_from_accounting_model_by_overshoot_witness`: where the traced transaction model is
+  the accounting model, and the exact place where it is not.
 * `vm_swaps_only_touch_the_split`: `ensure_vms_instantiated` never touches cycles booked, VM states,
   fds, inherited fds, terminated VMs, id counters.
 -/
@@ -586,5 +597,219 @@ theorem tx_suspension_within_call_limit (limit : Nat) (gs : List GKind) :
 -- lock group and suspends in the system script with 300 cycles handed on; no scheduler state is kept
 example : (resumableVerify [.vm, .tid 0] 1000 [⟨0, 700, .exit 0, []⟩] []).1 = .suspended ⟨1, none, 700, 300⟩ := by
   decide +kernel
+
+end CkbVerif.C05
+
+/-! ### the fd-ownership invariant of waiters and the full post-condition of `process_io` -/
+
+namespace CkbVerif.C05
+open CkbVerif.SchedBook CkbVerif.SchedTx
+
+/-- **process_io_leaves_no_writer_on_closed_end.** For EVERY scheduler state with an ordered `states`
+map: after `process_io` no VM waits for a write on a pipe whose read end is closed. -/
+theorem process_io_leaves_no_writer_on_closed_end (s t : Sch) (hk : KS s.states) (h : processIo s = .ok t) :
+    closedWriters t = [] :=
+  processIo_no_closed_writer s t hk h
+
+/-- **process_io_leaves_no_matching_pair.** For EVERY scheduler state that satisfies the ownership
+invariant `IoInv` (ordered `states`; a VM that waits on an fd owns it; fds below `next_fd_slot`):
+after `process_io` no reader and writer on the two ends (`fd`, `fd ^ 1`) of one pipe are both left
+waiting. -/
+theorem process_io_leaves_no_matching_pair (s t : Sch) (hi : IoInv s) (h : processIo s = .ok t) :
+    ioPairs t = [] :=
+  processIo_no_pair s t hi.ks (fun x fd len hm => hi.own x _ fd hm (.inl ⟨len, rfl⟩)) h
+
+/-- **process_io_leaves_no_servable_io.** The full post-condition: under the ownership invariant,
+after `process_io` NO servable pipe IO is left — no waiter on a closed end (reader or writer) and no
+matching read/write pair. Hence a suspended state with servable IO can only come from the early
+return of `iterate_outer` that skips `process_io` (F20). -/
+theorem process_io_leaves_no_servable_io (s t : Sch) (hi : IoInv s) (h : processIo s = .ok t) :
+    servableIo t = false := by
+  unfold servableIo
+  rw [process_io_leaves_no_reader_on_closed_end s t hi.ks h, process_io_leaves_no_writer_on_closed_end s t hi.ks h,
+    process_io_leaves_no_matching_pair s t hi h]
+  rfl
+
+/-- **io_inv_initial.** a fresh scheduler satisfies the ownership invariant -/
+theorem io_inv_initial : IoInv ({} : Sch) := init_inv
+
+/-- **io_inv_message.** every message kind (spawn with its fd hand-over, wait, pipe, read, write,
+close, inherited_fd, exec) sent by a `Runnable` VM keeps the ownership invariant -/
+theorem io_inv_message (m : Msg) (s t : Sch) (hi : IoInv s) (hrun : mget m.sender s.states = some .runnable)
+    (h : processMsg m s = .ok t) : IoInv t :=
+  processMsg_inv m s t hi hrun h
+
+/-- **io_inv_process_io.** `process_io` keeps the ownership invariant -/
+theorem io_inv_process_io (s t : Sch) (hi : IoInv s) (h : processIo s = .ok t) : IoInv t :=
+  processIo_inv s t hi h
+
+/-- **io_inv_iterate_outer.** one whole iteration (`iterate_prepare_machine`, the VM run with at most
+one message of the VM that ran, `iterate_process_results` incl. the exit of a root or non-root VM,
+the books, `process_io`) keeps the ownership invariant on EVERY path, error paths included -/
+theorem io_inv_iterate_outer (ev : Ev) (limit : Nat) (s : Sch) (hi : IoInv s) (hl : ev.msgs.length ≤ 1)
+    (hs : ∀ m ∈ ev.msgs, chooseVm s = some m.sender) : IoInv (iterateOuter ev limit s).1 :=
+  iterateOuter_inv ev limit s hi hl hs
+
+/-- **io_inv_run.** `Scheduler::run` (booting the root VM if needed, then the loop) keeps the
+ownership invariant for every well-formed stream of observed VM runs, whatever the limit -/
+theorem io_inv_run (evs : List Ev) (limit : Nat) (s : Sch) (hi : IoInv s) (hok : ∀ ev ∈ evs, EvOk ev) :
+    IoInv (run evs limit s).1 :=
+  run_inv evs limit s hi hok
+
+/-- **io_inv_suspend_resume.** `Scheduler::suspend` and `Scheduler::resume` keep the ownership invariant -/
+theorem io_inv_suspend_resume (s t s' : Sch) (f : Full) (lg : List Out) (hi : IoInv s)
+    (h1 : suspend s = .ok (f, t)) (h2 : resume f lg = .ok s') : IoInv t ∧ IoInv s' :=
+  suspend_resume_inv s t s' f lg hi h1 h2
+
+/-- **io_inv_chunked.** the resumable API as coded — any number of `run` calls with any limits, each
+stop suspended and resumed — keeps the ownership invariant from a fresh scheduler on: every state a
+chunked run of a script group goes through has its waiters owning their fds -/
+theorem io_inv_chunked (ls : List Nat) (evs : List Ev) (hok : ∀ ev ∈ evs, EvOk ev) :
+    IoInv (chunkedWith resume ls evs {}).2.2 :=
+  chunked_inv ls evs {} init_inv hok
+
+-- non-vacuity: the run of `pipeRun` (root and child on one pipe) is a well-formed stream
+example : ∀ ev ∈ pipeRun, EvOk ev := by
+  intro ev hev
+  simp only [pipeRun, List.mem_cons, List.not_mem_nil, or_false] at hev
+  rcases hev with h | h | h | h | h | h <;> (subst h; exact ⟨by decide, by decide⟩)
+
+end CkbVerif.C05
+
+/-! ### the traced transaction model against the accounting model -/
+
+namespace CkbVerif.C05
+open CkbVerif.SchedBook CkbVerif.SchedTx CkbVerif.Cycles
+
+/-- how a result of the traced transaction model reads in the accounting model (cycles, verdict,
+group of the suspension; the suspended group state of a TYPE_ID group is the untouched one-step trace) -/
+def asAccounting : TxEnd → Option (Except Err VResult)
+  | .completed c => some (.ok (.completed c))
+  | .suspended ⟨idx, none, cycles, limit⟩ => some (.ok (.suspended ⟨idx, ⟨0, [Gen.Cycles.TYPE_ID_CYCLES]⟩, cycles, limit⟩))
+  | .suspended ⟨_, some _, _, _⟩ => none
+  | .failed c _ => some (.error (.validation c))
+  | .other => some (.error .other)
+  | .overflow => some (.error .overflow)
+  | .stopped _ _ => none
+  | .mismatch _ => none
+
+theorem addU64_eq (a b : Nat) : addU64 a b = (match cyclesAdd a b with | .ok c => some c | .error _ => none) := by
+  unfold addU64 cyclesAdd
+  have : SchedBook.U64 = Cycles.U64 := rfl
+  rw [this]
+  split <;> rfl
+
+/-- **tx_model_eq_accounting_model_on_type_id_groups.** On transactions whose groups are all the
+built-in TYPE_ID system script the traced transaction model (`Model/SchedTx.lean`) and the
+accounting model (`Model/Cycles.lean`, about which the 31 older theorems speak) are the SAME function
+for every limit: same total, same `ValidationFailure`, same suspended group with the same recorded
+cycles and limit, the same `Other` / `CyclesOverflow`. -/
+theorem tx_model_eq_accounting_model_on_type_id_groups (limit : Nat) (codes : List Int) :
+    ∀ (idx used cycles : Nat) (evs : List Ev) (log : List Out),
+      asAccounting (txLoop limit (codes.map GKind.tid) idx used cycles evs log).1 =
+        some (resumableLoop limit (codes.map typeIdGroup) idx used cycles) := by
+  induction codes with
+  | nil => intro idx used cycles evs log; rfl
+  | cons code rest ih =>
+    intro idx used cycles evs log
+    simp only [List.map_cons]
+    unfold txLoop resumableLoop
+    by_cases hl : limit < used
+    · simp [hl, asAccounting]
+    · simp only [hl, if_false]
+      have h2 := (type_id_group_is_single_step (limit - used) code).2.1
+      rw [h2]
+      unfold chunkRunS
+      simp only
+      cases hc : typeIdChunk (limit - used) code with
+      | error e =>
+        unfold typeIdChunk at hc
+        cases hv : typeIdVerify (limit - used) code with
+        | ok c => rw [hv] at hc; cases hc
+        | error e' =>
+          rw [hv] at hc
+          cases e' with
+          | exceeded _ => simp at hc
+          | validation c => simp at hc; subst hc; simp [asAccounting]
+          | other =>
+            unfold typeIdVerify at hv
+            split at hv
+            · cases hv
+            · split at hv <;> cases hv
+          | overflow =>
+            unfold typeIdVerify at hv
+            split at hv
+            · cases hv
+            · split at hv <;> cases hv
+      | ok o =>
+        cases o with
+        | none => simp [asAccounting, typeIdGroup]
+        | some p =>
+          obtain ⟨u, c⟩ := p
+          simp only
+          rw [addU64_eq, addU64_eq]
+          cases hca : cyclesAdd used c with
+          | error e =>
+            have : e = .overflow := by
+              unfold cyclesAdd at hca
+              split at hca
+              · cases hca
+              · cases hca; rfl
+            subst this
+            simp [asAccounting]
+          | ok used' =>
+            simp only
+            cases hcb : cyclesAdd cycles u with
+            | error e =>
+              have : e = .overflow := by
+                unfold cyclesAdd at hcb
+                split at hcb
+                · cases hcb
+                · cases hcb; rfl
+              subst this
+              simp [asAccounting]
+            | ok cycles' => simp only; exact ih (idx + 1) used' cycles' evs log
+
+end CkbVerif.C05
+
+namespace CkbVerif.C05
+open CkbVerif.SchedBook CkbVerif.SchedTx CkbVerif.Cycles
+
+/-- in the accounting model a suspended chunk never consumed more than its limit -/
+theorem accounting_chunk_within_limit (g : Group) (limit : Nat) (s : GState)
+    (h : chunkRun g limit none = .ok (.suspended s)) : s.consumed ≤ limit := by
+  unfold chunkRun at h
+  have hc := (runSteps_conserve g.steps limit).2
+  simp only [Option.getD_none] at h
+  rcases hr : runSteps g.steps limit with ⟨c, r⟩
+  rw [hr] at h hc
+  simp only at h hc
+  split at h
+  · split at h <;> cases h
+  · simp only [Except.ok.injEq, Chunk.suspended.injEq] at h
+    subst h
+    simp only
+    omega
+
+/-- one VM: 200 cycles and a `pipe` call (800 unchecked yield cycles), then 500 cycles and exit -/
+def overshootRun : List Ev := [⟨0, 1000, .yield, [.pipe 0]⟩, ⟨0, 500, .exit 0, []⟩]
+
+/-- **tx_model_differs_from_accounting_model_by_overshoot_witness.** The exact place where the traced
+transaction model and the accounting model differ on a VM group: the scheduler books the unchecked
+yield charge of a syscall even when it oversteps the limit (`iterate_outer` consumes, THEN tests), so
+the suspended scheduler has consumed MORE than the limit of the call (here 1000 of a limit of 500,
+recorded `limit_cycles` 500), while a suspended chunk of the accounting model never consumed more
+than its limit (`accounting_chunk_within_limit`: a step that does not fit is not executed). Verdict
+and final total agree: resumed, the run completes with the 1500 cycles of the uninterrupted run. -/
+theorem tx_model_differs_from_accounting_model_by_overshoot_witness :
+    (match (SchedTx.resumableVerify [.vm] 500 overshootRun []).1 with
+      | .suspended st => some (st.current, st.limitCycles, st.full.map (·.total))
+      | _ => none) = some (0, 500, some 1000) ∧
+    (match SchedTx.resumableVerify [.vm] 500 overshootRun [] with
+      | (.suspended st, rest, _) => (SchedTx.resumeFromState [.vm] st (SchedBook.U64 - 1) rest []).1
+      | _ => .other) = .completed 1500 ∧
+    (SchedTx.resumableVerify [.vm] (SchedBook.U64 - 1) overshootRun []).1 = .completed 1500 ∧
+    (∀ (g : Group) (s : GState), chunkRun g 500 none = .ok (.suspended s) → s.consumed ≤ 500) :=
+  ⟨by decide +kernel, by decide +kernel, by decide +kernel, fun g s h => accounting_chunk_within_limit g 500 s h⟩
 
 end CkbVerif.C05
